@@ -4,7 +4,10 @@
 EXTENDS Imports, Json
 
 CONSTANTS Parts,        \* set of scenario families to enumerate
-          ContentLen    \* maximal length of byte strings in the "content" family
+          ContentLen,   \* maximal length of byte strings in the "content" family
+          Slices, Slice \* the big families are cut in `Slices` classes (sum of the
+                        \* parameter indices modulo Slices); class `Slice` is enumerated
+Sel(n) == n % Slices = Slice
 
 A == "a.libsonnet"
 LMain == <<"main">>
@@ -38,9 +41,15 @@ Prog(w, stmts) ==
 (* ---- search: presence x -J order x importer x spelling x kind ----------- *)
 SpRel == {<<A>>, <<".", A>>, <<"sub", "..", A>>, <<"..", "L1", A>>}
 SpAbs == {Abs(loc \o <<A>>) : loc \in Locs}
+PresQ == SetToSeq(SUBSET Locs)
+JPQ == SetToSeq(JPs)
+ImpQ == SetToSeq(Importers)
+SpQ == SetToSeq(SpRel \cup SpAbs)
+KindQ == SetToSeq(Kinds)
+SearchScen(pres, jp, w, sp, k) == Scen("search", AFiles(pres) \cup Prog(w, <<Stmt(k, sp, 0)>>), jp, MainPath)
 SearchPart(z) ==
-  {Scen("search", AFiles(pres) \cup Prog(w, <<Stmt(k, sp, 0)>>), jp, MainPath) :
-      pres \in SUBSET Locs, jp \in JPs, w \in Importers, sp \in SpRel \cup SpAbs, k \in Kinds}
+  {SearchScen(PresQ[u[1]], JPQ[u[2]], ImpQ[u[3]], SpQ[u[4]], KindQ[u[5]]) :
+      u \in {v \in (1..16) \X (1..5) \X (1..3) \X (1..8) \X (1..3) : Sel(v[1] + v[2] + v[3] + v[4] + v[5])}}
 
 (* ---- special: one location holds something that is not a plain file ----- *)
 Specials == {"dir", "dangling", "link", "linkdir"}
@@ -50,11 +59,16 @@ SpecialEntry(x, s) ==
     [] s = "link" -> {<<x \o <<A>>, Link(Ups(x) \o <<"real.libsonnet">>)>>, <<<<"real.libsonnet">>, Leaf(6)>>}
     [] s = "linkdir" -> {<<x \o <<A>>, Link(Ups(x) \o <<"L2", "sub">>)>>}
 SpecialSp(v, x) == IF v = "plain" THEN <<A>> ELSE IF v = "dotdot" THEN <<"sub", "..", A>> ELSE Abs(x \o <<A>>)
+LocQ == SetToSeq(Locs)
+SpecQ == SetToSeq(Specials)
+SpVarQ == <<"plain", "dotdot", "abs">>
+SpecialScen(x, s, others, jp, w, v, k) ==
+  Scen("special", SpecialEntry(x, s) \cup AFiles(IF others THEN Locs \ {x} ELSE {})
+                  \cup Prog(w, <<Stmt(k, SpecialSp(v, x), 0)>>), jp, MainPath)
 SpecialPart(z) ==
-  {Scen("special", SpecialEntry(x, s) \cup AFiles(IF others THEN Locs \ {x} ELSE {})
-                   \cup Prog(w, <<Stmt(k, SpecialSp(v, x), 0)>>), jp, MainPath) :
-      x \in Locs, s \in Specials, others \in BOOLEAN, jp \in JPs, w \in Importers,
-      v \in {"plain", "dotdot", "abs"}, k \in Kinds}
+  {SpecialScen(LocQ[u[1]], SpecQ[u[2]], u[3] = 1, JPQ[u[4]], ImpQ[u[5]], SpVarQ[u[6]], KindQ[u[7]]) :
+      u \in {v \in (1..4) \X (1..4) \X (1..2) \X (1..5) \X (1..3) \X (1..3) \X (1..3) :
+                Sel(v[1] + v[2] + v[3] + v[4] + v[5] + v[6] + v[7])}}
 
 (* ---- laws: the trees on which the algebra of Resolve is checked --------- *)
 LawsPartA(z) ==
@@ -67,13 +81,17 @@ LawsPartB(z) ==
 
 (* ---- invoc: main file and -J given as absolute paths; odd -J lists ------ *)
 JPx == JPs \cup {<<<<"nodir">>, L1>>, <<L1, <<"nodir">>>>, <<L1, L1, L2>>}
+JPxQ == SetToSeq(JPx)
+InvPresQ == <<{L1}, {L1, L2}, {LSub, L2}, Locs>>
+InvSpQ == <<<<A>>, <<"sub", "..", A>>, <<"..", "L1", A>>, Abs(L2 \o <<A>>)>>
+InvModeQ == <<<<TRUE, FALSE>>, <<FALSE, TRUE>>, <<TRUE, TRUE>>>>
+InvocScen(pres, jp, w, sp, m) ==
+  Scen("invoc", AFiles(pres) \cup Prog(w, <<Stmt("import", sp, 0)>>),
+       [i \in 1..Len(jp) |-> IF m[2] THEN Abs(jp[i]) ELSE jp[i]] \o <<>>,
+       IF m[1] THEN Abs(MainPath) ELSE MainPath)
 InvocPart(z) ==
-  {Scen("invoc", AFiles(pres) \cup Prog(w, <<Stmt("import", sp, 0)>>),
-        [i \in 1..Len(jp) |-> IF m[2] THEN Abs(jp[i]) ELSE jp[i]],
-        IF m[1] THEN Abs(MainPath) ELSE MainPath) :
-      pres \in {{L1}, {L1, L2}, {LSub, L2}, Locs}, jp \in JPx, w \in Importers,
-      sp \in {<<A>>, <<"sub", "..", A>>, <<"..", "L1", A>>, Abs(L2 \o <<A>>)},
-      m \in {<<TRUE, FALSE>>, <<FALSE, TRUE>>, <<TRUE, TRUE>>}}
+  {InvocScen(InvPresQ[u[1]], JPxQ[u[2]], ImpQ[u[3]], InvSpQ[u[4]], InvModeQ[u[5]]) :
+      u \in {v \in (1..4) \X (1..8) \X (1..3) \X (1..4) \X (1..3) : Sel(v[1] + v[2] + v[3] + v[4] + v[5])}}
 
 (* ---- pairs: the same file reached twice or three times ------------------ *)
 PairFs(mainHasA) ==
@@ -87,19 +105,21 @@ PairSp == {<<A>>, <<".", A>>, <<"sub", "..", A>>, Abs(LMain \o <<A>>), <<"..", "
            <<"sub", "imp.libsonnet">>}
 TripleSp == {<<A>>, <<"sub", "..", A>>, <<"alias.libsonnet">>, <<"..", "Lk", A>>, <<"sub", "imp.libsonnet">>}
 PairKinds == {<<"import", "import">>, <<"str", "import">>, <<"import", "bin">>}
+PairSpQ == SetToSeq(PairSp)
+TripleSpQ == SetToSeq(TripleSp)
+PairKindQ == SetToSeq(PairKinds)
+PairJQ == <<<<>>, <<L1>>>>
+PairScen(h, jp, stmts, strict) == Scen("pairs", PairFs(h) \cup {<<MainPath, Code(0, stmts, <<>>, strict)>>}, jp, MainPath)
 PairsPartA(z) ==
-  {Scen("pairs", PairFs(h) \cup {<<MainPath, Code(0, <<Stmt(ks[1], s1, 0), Stmt(ks[2], s2, 0)>>, <<>>, FALSE)>>},
-        jp, MainPath) :
-      h \in BOOLEAN, jp \in {<<>>, <<L1>>}, s1 \in PairSp, s2 \in PairSp, ks \in PairKinds}
+  {PairScen(u[1] = 1, PairJQ[u[2]], <<Stmt(PairKindQ[u[5]][1], PairSpQ[u[3]], 0), Stmt(PairKindQ[u[5]][2], PairSpQ[u[4]], 0)>>, FALSE) :
+      u \in {v \in (1..2) \X (1..2) \X (1..10) \X (1..10) \X (1..3) : Sel(v[1] + v[2] + v[3] + v[4] + v[5])}}
 PairsPartB(z) ==
-  {Scen("pairs", PairFs(h) \cup {<<MainPath, Code(0, <<Stmt("import", s1, 0), Stmt("import", s2, 0)>>, <<>>, TRUE)>>},
-        jp, MainPath) :
-      h \in BOOLEAN, jp \in {<<>>, <<L1>>}, s1 \in PairSp, s2 \in PairSp}
+  {PairScen(u[1] = 1, PairJQ[u[2]], <<Stmt("import", PairSpQ[u[3]], 0), Stmt("import", PairSpQ[u[4]], 0)>>, TRUE) :
+      u \in {v \in (1..2) \X (1..2) \X (1..10) \X (1..10) : Sel(v[1] + v[2] + v[3] + v[4])}}
 PairsPartC(z) ==
-  {Scen("pairs", PairFs(h) \cup {<<MainPath, Code(0, <<Stmt("import", s1, 0), Stmt("import", s2, 0),
-                                                      Stmt("import", s3, 0)>>, <<>>, FALSE)>>},
-        <<L1>>, MainPath) :
-      h \in BOOLEAN, s1 \in TripleSp, s2 \in TripleSp, s3 \in TripleSp}
+  {PairScen(u[1] = 1, <<L1>>, <<Stmt("import", TripleSpQ[u[2]], 0), Stmt("import", TripleSpQ[u[3]], 0),
+                                Stmt("import", TripleSpQ[u[4]], 0)>>, FALSE) :
+      u \in {v \in (1..2) \X (1..5) \X (1..5) \X (1..5) : Sel(v[1] + v[2] + v[3] + v[4])}}
 
 (* ---- cycles: c1 <-> c2 (and self-import), demanded or not --------------- *)
 C1 == LMain \o <<"c1.libsonnet">>
